@@ -22,6 +22,15 @@ CHECKS = {
     'C07': ('explicit-state BFS of the real World processor list to fixpoint against a stable-sort list model; exhaustive list/probe/window enumeration for desper.bisect vs the standard library',
             'E1: all add_processor/remove_processor/process histories over 4 processor classes x priorities {None,-1,0,1,5} to fixpoint (fresh and re-added instances); E3: all sorted lists of length <= 6 over 4 values x all probes x all lo/hi windows, keyed and unkeyed',
             'CPython semantics; standard library bisect as reference', '3/C07'),
+    'C03': ('explicit-state BFS of a real EventDispatcher to fixpoint over every configuration of scripted re-entrant callbacks x every listener iteration order; exhaustive enumeration of decorator programs',
+            'E1: add/remove/dispatch histories to fixpoint for every assignment of re-entrant actions (remove self/other, add, nested dispatch) to 3 handlers x all 3! listener orders x 4 event names x 6 argument shapes, delivery multiset judged per dispatch frame; E3: every event_handler decorator program on forests of <= 4 classes',
+            'CPython semantics; listener order owned through __hash__ of harness handlers (calibrated per process)', '3/C03'),
+    'C04': ('explicit-state BFS of a real EventDispatcher to fixpoint with a raise / nested disable injected at every delivery position of every release (deviation-bounded), global exactly-once-in-order ledger, deterministic step budget for termination',
+            'E1+E2: all interleavings of dispatch / enable / disable / add / remove listener with queue <= 5, every fault plan with <= 2 faults per release, explored to fixpoint; termination decided by a line budget on desper frames',
+            'CPython semantics; sys.settrace line budget (20000 lines) stands for non-termination', '3/C04'),
+    'C10': ('exhaustive enumeration of drop points x callback actions x listener iteration orders on a real EventDispatcher and World',
+            'E2: k <= 3 listeners, every subset dropped between operations, full product of per-callback actions (drop / remove / immediate delete / deferred delete of any listener) x all k! orders, followed by process and further dispatches; weak references of the harness prove release',
+            'CPython reference counting (immediate finalisation at refcount 0)', '3/C10'),
 }
 
 NOT_YET = {p: 'check under construction (planned in DESIGN.md section 3); not claimed yet' for p in
